@@ -22,6 +22,7 @@ pub const FAULTS: &[FolderFault] = &[
     FolderFault::ReadOnlyFs,
     FolderFault::NameIsDir,
     FolderFault::StaleFile,
+    FolderFault::TargetFileReadOnly,
 ];
 // FolderFault::Enospc is NOT part of the per-world enumeration: dot-writer unwrap()s write errors
 // and panics again while unwinding (in Drop), which aborts the process and cannot be caught. It is
@@ -78,6 +79,10 @@ impl Prop for C18 {
         let prefixes = ["P", "out", "Test0", "with space", "pr\u{e4}fix", "a.b"];
         let mut prefix = rng.pick(&prefixes).to_string();
         script.push(Op::ExportDot { sc: 0, prefix: prefix.clone() });
+        if rng.chance(1, 3) {
+            // a second export into the same healthy folder overwrites the files of the first
+            script.push(Op::ExportDot { sc: 0, prefix: prefix.clone() });
+        }
         for k in order {
             if rng.chance(1, 4) {
                 prefix = rng.pick(&prefixes).to_string();
@@ -112,7 +117,7 @@ impl Prop for C18 {
             "probe.lookahead_cluster_verified", "probe.all_verdict_fault_kinds_fired", "probe.files_verified", "probe.multi_mode_export",
             "probe.label_with_escapes", "probe.fault_on_non_last_mode_file", "probe.export_over_stale_file", "probe.export_after_heal", "probe.fancy_mode_name", "probe.non_utf8_folder_name",
             "fault.folder_missing", "fault.folder_not_a_dir", "fault.folder_read_only_perm", "fault.folder_read_only_fs",
-            "fault.folder_name_is_dir", "fault.folder_stale_file",
+            "fault.folder_name_is_dir", "fault.folder_stale_file", "fault.folder_target_file_read_only",
         ]
     }
     fn uses_cache(&self) -> bool {
@@ -521,6 +526,7 @@ fn fault_name(k: FolderFault) -> &'static str {
         FolderFault::NameIsDir => "name_is_dir",
         FolderFault::StaleFile => "stale_file",
         FolderFault::Enospc => "enospc",
+        FolderFault::TargetFileReadOnly => "target_file_read_only",
     }
 }
 
@@ -577,7 +583,7 @@ impl<'w> Exec for Exec18<'w> {
                         }
                     }
                     // applied at export time (they depend on the file names) or are other folders
-                    FolderFault::NameIsDir | FolderFault::StaleFile | FolderFault::ReadOnlyFs | FolderFault::Enospc => {}
+                    FolderFault::NameIsDir | FolderFault::StaleFile | FolderFault::ReadOnlyFs | FolderFault::Enospc | FolderFault::TargetFileReadOnly => {}
                 }
                 StepOut::ok(Obs::Unit)
             }
@@ -625,6 +631,16 @@ impl<'w> Exec for Exec18<'w> {
                         }
                         let _ = std::fs::create_dir_all(self.home.join(victim));
                     }
+                    Some(FolderFault::TargetFileReadOnly) => {
+                        if self.root {
+                            // permissions do not bind root: the fault cannot be produced here
+                            bump("probe.fault_kind_unavailable_in_this_environment");
+                            return StepOut::skipped();
+                        }
+                        let victim = self.home.join(&names[self.victim % names.len()]);
+                        let _ = std::fs::write(&victim, b"read-only leftover");
+                        set_mode(&victim, 0o444);
+                    }
                     Some(FolderFault::StaleFile) => {
                         for n in &names {
                             let _ = std::fs::write(self.home.join(n), vec![b'#'; 70_000]);
@@ -642,6 +658,7 @@ impl<'w> Exec for Exec18<'w> {
                         FolderFault::NameIsDir => "fault.folder_name_is_dir",
                         FolderFault::StaleFile => "fault.folder_stale_file",
                         FolderFault::Enospc => "fault.folder_enospc",
+                        FolderFault::TargetFileReadOnly => "fault.folder_target_file_read_only",
                     };
                     bump(name);
                     self.fired.insert(name);
